@@ -76,7 +76,10 @@ def check_case(pts, t):
         noise += 1e-12 * max(1.0, oc.maxabs(pts)) * float(abs(x1) + abs(y1)) / speed ** 3
         if abs(k - exk) > 1e-7 * abs(exk) + noise + 1e-300:
             return "curvature %r differs from (x'y''-y'x'')/(x'^2+y'^2)^1.5 = %r" % (k, exk)
-    return None
+    # the answers describe the segment as it is now, not as it was when first asked
+    return oc.stale_check(pts, hash((tuple(pts), t)) & 0xFFFFFF, [
+        ("tangentAtTime(%r)" % t, lambda s: s.tangentAtTime(t)), ("normalAtTime(%r)" % t, lambda s: s.normalAtTime(t)),
+        ("curvatureAtTime(%r)" % t, lambda s: s.curvatureAtTime(t)), ("startAngle", lambda s: s.startAngle), ("endAngle", lambda s: s.endAngle)])
 
 
 def search(ctx, budget):
